@@ -25,6 +25,7 @@ def cmd_run(argv):
     tasks = json.loads(Path(tasks_file).read_text())
     eng = driver.load_engine(pid)
     t0 = time.time()
+    done = []
     with open(out_file, 'w') as out:
         for t in tasks:
             if time.time() - t0 > budget_s:
@@ -33,6 +34,13 @@ def cmd_run(argv):
             r = eng.run_case(seed, t, tier)
             faulthandler.cancel_dump_traceback_later()
             r['task'] = t
+            for v in r.get('violations', []):
+                # what this interpreter had executed before the failing case: lets a failure that depends on state
+                # the system under test keeps across cases (a class-level cache, say) be replayed all the same
+                v['task'] = t
+                v['tier'] = tier
+                v['worker_prefix'] = list(done)
+            done.append(t)
             out.write(json.dumps(r, default=str) + '\n')
             out.flush()
     return 0
@@ -41,9 +49,31 @@ def cmd_run(argv):
 def cmd_replay(argv):
     rep = json.loads(Path(argv[0]).read_text())
     eng = driver.load_engine(rep['property'])
-    faulthandler.dump_traceback_later(800, exit=True)
-    vs = eng.replay(rep)
-    vs = [v for v in vs if v['property'] == rep['property']]
+    prefix_only = '--prefix-only' in argv
+    vs = []
+    if not prefix_only:
+        faulthandler.dump_traceback_later(800, exit=True)
+        vs = eng.replay(rep)
+        vs = [v for v in vs if v['property'] == rep['property']]
+        faulthandler.cancel_dump_traceback_later()
+        if not vs and rep.get('worker_prefix') and rep.get('task') and not rep.get('minimised'):
+            # not reproducible from the case alone: in ANOTHER fresh interpreter (this one has just executed the
+            # case, which may itself have changed the state in question) re-execute what the worker had executed
+            # before the case, then the case
+            import subprocess
+            p = subprocess.run([sys.executable, __file__, 'replay', argv[0], '--prefix-only'], text=True,
+                               capture_output=True, timeout=3300)
+            sys.stdout.write(p.stdout)
+            return p.returncode
+    else:
+        faulthandler.dump_traceback_later(3200, exit=True)
+        for t in rep['worker_prefix']:
+            eng.run_case(rep['seed'], t, rep.get('tier', 'quick'))
+        r = eng.run_case(rep['seed'], rep['task'], rep.get('tier', 'quick'))
+        vs = [v for v in r.get('violations', []) if v['property'] == rep['property'] and v['clause'] == rep['clause']]
+        if vs:
+            print('REPLAY-NOTE reproduced only together with the %d cases the worker had executed before it '
+                  '(state carried across cases inside the process)' % len(rep['worker_prefix']))
     for v in vs:
         print('REPLAY-VIOLATION ' + json.dumps({'clause': v['clause'], 'signature': v['signature'],
                                                 'detail': v.get('detail')}, default=str))
